@@ -261,13 +261,18 @@ class Cluster:
 
         while True:
             if task not in self._clusters[c]['tasks']['running']:
-                # THIS CHECK DOESN"T WORK FIX IT SOMEHOW
-                if (machine not in self._clusters[c]['resources'][
-                    'available'] and (machine not in
-                        self._clusters[c]['resources'][
-                            'ingest'] and machine not in
-                        self.get_idle_resources(
-                            observation))):
+                # An ingest task runs on a machine that has been moved to
+                # the ingest pool for it; any other task needs a machine
+                # that is free or reserved (idle) for its own observation.
+                if ingest:
+                    eligible = (machine in
+                                self._clusters[c]['resources']['ingest'])
+                else:
+                    eligible = (machine in
+                                self._clusters[c]['resources']['available']
+                                or machine in
+                                self.get_idle_resources(observation))
+                if not eligible:
                     raise RuntimeError
                 if ingest:
                     # Ingest resources allocated separately from scheduler
